@@ -390,10 +390,44 @@ def run_par(c, rng):
             break
         if label == "Model.create":
             model = m
+            replace_rvs_only(c, rng, pc, ref, rvs, vin, fixed, special_key, delta_ok)
             if all(cl == "valid" for cl in cls_in):
                 check_ucp(c, rng, pc, ref, m, vin, fixed)
             else:
                 c.hit("not_judged:ucp-needs-positive-definite-inits")
+
+
+def replace_rvs_only(c, rng, pc, ref, rvs, vin, fixed, special_key, delta_ok):
+    """The same parameters first in a model whose random effects are all independent (every off-diagonal parameter is
+    present but unused), then ONLY the random variables are replaced by the collection with joint blocks: the
+    initial estimates of the result must again be valid for every block (nearest valid matrix, valid ones untouched)."""
+    from pharmpy.model import Model, NormalDistribution, RandomVariables
+
+    if pc.numeric_entry or pc.shared or not any(len(b) >= 2 for b in ref.blocks):
+        c.hit("not_judged:replace-rvs-only-needs-a-symbolic-joint-block")
+        return
+    try:
+        diag = RandomVariables.create([
+            NormalDistribution.create(n, ref.level[n], R.to_native(ref.mean[n]), R.to_native(ref.get(n, n)))
+            for b in ref.blocks for n in b])
+        m0 = Model.create(name="c11d", parameters=make_parameters(rng, pc, vin, fixed), random_variables=diag)
+    except (ValueError, TypeError):
+        c.hit("not_judged:replace-rvs-only-diagonal-model-refused")
+        return
+    vin0 = dict(m0.parameters.inits)
+    try:
+        m1 = m0.replace(random_variables=rvs)
+    except ValueError as e:
+        c.violate(None, f"Model.replace(random_variables=...) raised ValueError: {e}", c.sample)
+        return
+    c.hit("model_replace_rvs_only")
+    vout = dict(m1.parameters.inits)
+    probs = judge_repaired(c, "Model.replace(random_variables only)", ref, vin0, vout, monitor="model_replace_rvs",
+                           only_validity_for=pc.special_block)
+    for fact, msg in probs[:1]:
+        sp_inv = special_key and classify(block_matrix(ref, pc.special_block, vin0)) != "valid"
+        key = special_key if (special_key and sp_inv and fact == "not-psd" and delta_ok()) else None
+        c.violate(key, msg, {"sample": c.sample, "values_in": vin0})
 
 
 def check_ucp(c, rng, pc, ref, m, values, fixed):
